@@ -14,6 +14,7 @@
   `History` keeps the pre-repair recursion and its negative count.
 -/
 import SpgProofs.Lemmas.Strings
+import Spg.Generated.Facts
 namespace Spg.C07
 open Spg
 
@@ -203,6 +204,15 @@ theorem entropyD_eq_card :
       apply List.filter_eq_self.mpr; intro s _; exact hall s
     rw [this, strings_length]; simp [CharRecipe.total, CharRecipe.size]
   · exact recipe_count_eq_card cfg r
+
+/-- "The same value on every call": the count is a function of the recipe (above), and the library
+keeps no state in which an earlier evaluation could be remembered — its package-level variables
+are the shipped data and configuration only. A memo table or cache would show up here. -/
+theorem no_memo_state :
+    Generated.Facts.packageVars.map (·.1) =
+      ["AgileSyllables", "AgileWords", "MaxFailRate", "MaxTrials", "SFDigits1", "SFDigits2",
+       "SFDigitsNoAmbiguous1", "SFDigitsNoAmbiguous2", "SFDigitsSymbols", "SFNone", "SFSymbols",
+       "charTypeByFlag", "charTypeNamesByFlag"] := by decide
 
 /-! ### History: the count before the repair -/
 namespace History
